@@ -249,7 +249,7 @@ public:
 	  \param sz number of elements in set to copy
 	  \param ftha pointer to field hash array */
 	presorted_set(const_iterator arr_start, const size_t sz, const FieldTrait_Hash_Array *ftha)
-		: _reserve(), _sz(sz), _arr(new FieldTrait[_sz]), _ftha(ftha)
+		: _reserve(), _sz(sz), _rsz(sz), _arr(new FieldTrait[_sz]), _ftha(ftha)
 			{ memcpy(_arr, arr_start, _sz * sizeof(FieldTrait)); }
 
 	/*! ctor - initialise an empty set; defer memory allocation;
